@@ -24,6 +24,7 @@ structure DCl where
   insync : Bool := false      -- picture = scaled image except for the pixels whose block `pend` touches
   pw : Nat := 0
   ph : Nat := 0
+  cr : Bool := false                      -- cl->useCopyRect
   lastBtn : Nat := 0                      -- cl->lastPtrButtons
   lastPtr : Option (Nat × Nat) := none    -- cl->lastPtrX/Y (coalesced motion, already mapped back)
   deriving Inhabited
@@ -240,6 +241,29 @@ def flushPtr (cls : List DCl) : List (Nat × Nat × Nat × Nat) :=
 def fmtPtrEvs (evs : List (Nat × Nat × Nat × Nat)) : String :=
   s!" {evs.length}" ++ String.join (evs.map fun (id, m, x, y) => s!" {id}:{m},{x},{y}")
 
+/-- rfbDoCopyRect (`copy`) / the application moving the pixels itself + rfbScheduleCopyRect
+(`schedcopy`): the destination rectangle becomes a copy of the pixels at (-dx,-dy) from it, the scaled
+copies are refreshed on the destination; clients without CopyRect get it as a modified rectangle.  For
+a client WITH CopyRect the split into copied / re-sent parts (and the approximate scaled CopyRect) is
+not modelled: its regions are kept as pixel sets only and its picture is unknown until it has
+requested everything non-incrementally. -/
+def doCopy (st : DState) (s : Srv) (x y w h : Nat) (dx dy : Int) : DState × List String :=
+  let sx : Int := (x : Int) - dx
+  let sy : Int := (y : Int) - dy
+  if w < 1 || h < 1 || x + w > s.main.w || y + h > s.main.h ||
+     sx < 0 || sy < 0 || sx + w > s.main.w || sy + h > s.main.h then (st, ["bad-op"]) else
+  let r : Rect := ⟨x, y, w, h⟩
+  let old := s.main.img
+  let fb := Img.tabulate s.main.w s.main.h fun X Y =>
+    if r.has X Y then old.get ((X : Int) - dx).toNat ((Y : Int) - dy).toNat else old.get X Y
+  let s1 := { s with main := { s.main with img := fb } }
+  let s2 := step s1 (.modify r)
+  let cls := st.cls.map fun d =>
+    if !d.live then d
+    else if d.cr then { d with pend := ⟨d.pend.set ||| rectMask s.main.w r, none⟩, pic := none, insync := false }
+    else { d with pend := d.pend.add s.main.w r }
+  ({ st with srv := some s2, cls := cls }, ["ok"])
+
 def dstep (st : DState) (toks : List String) : DState × List String :=
   let bad : DState × List String := (st, ["bad-op"])
   match st.srv, toks with
@@ -252,16 +276,19 @@ def dstep (st : DState) (toks : List String) : DState × List String :=
   | none, _ => bad
   | some s, "client" :: i :: nfs :: rest =>
     -- the optional encoding (raw | corre | zlib | ultra) does not change what the model predicts
+    let isEnc (e : String) := e == "raw" || e == "corre" || e == "zlib" || e == "ultra"
     let encOk := match rest with
       | [] => true
-      | [e] => e == "raw" || e == "corre" || e == "zlib" || e == "ultra"
+      | [e] => isEnc e
+      | [e, c] => isEnc e && c == "cr"
       | _ => false
+    let useCr := rest.length == 2
     match nat? i, nat? nfs with
     | some i, some nfs =>
       if !encOk || i ≥ 8 || st.cls.any (·.id == i) then bad else
       let s1 := step s (.join i (nfs != 0))
       let d : DCl := { id := i, pend := Pend.add {} s.main.w (fullRect s), pic := some (zeros s.main.w s.main.h),
-                       insync := true, pw := s.main.w, ph := s.main.h }
+                       insync := true, pw := s.main.w, ph := s.main.h, cr := useCr }
       let (s2, cls, _, _) := flushAll s1 (st.cls ++ [d]) i
       ({ st with srv := some s2, cls := cls }, ["ok"])
     | _, _ => bad
@@ -382,23 +409,12 @@ def dstep (st : DState) (toks : List String) : DState × List String :=
       ({ st with srv := some s2, cls := cls }, ["ok"])
     | _, _, _, _, _ => bad
   | some s, ["copy", x, y, w, h, dx, dy] =>
-    -- rfbDoCopyRect: the destination rectangle becomes a copy of the pixels at (-dx,-dy) from it
-    -- (memmove row by row in the order that never overwrites a source row first), the scaled copies
-    -- are refreshed on the destination, clients without CopyRect get it as a modified rectangle
     match nat? x, nat? y, nat? w, nat? h, parseInt? dx, parseInt? dy with
-    | some x, some y, some w, some h, some dx, some dy =>
-      let sx : Int := (x : Int) - dx
-      let sy : Int := (y : Int) - dy
-      if w < 1 || h < 1 || x + w > s.main.w || y + h > s.main.h ||
-         sx < 0 || sy < 0 || sx + w > s.main.w || sy + h > s.main.h then bad else
-      let r : Rect := ⟨x, y, w, h⟩
-      let old := s.main.img
-      let fb := Img.tabulate s.main.w s.main.h fun X Y =>
-        if r.has X Y then old.get ((X : Int) - dx).toNat ((Y : Int) - dy).toNat else old.get X Y
-      let s1 := { s with main := { s.main with img := fb } }
-      let s2 := step s1 (.modify r)
-      let cls := st.cls.map fun d => if d.live then { d with pend := d.pend.add s.main.w r } else d
-      ({ st with srv := some s2, cls := cls }, ["ok"])
+    | some x, some y, some w, some h, some dx, some dy => doCopy st s x y w h dx dy
+    | _, _, _, _, _, _ => bad
+  | some s, ["schedcopy", x, y, w, h, dx, dy] =>
+    match nat? x, nat? y, nat? w, nat? h, parseInt? dx, parseInt? dy with
+    | some x, some y, some w, some h, some dx, some dy => doCopy st s x y w h dx dy
     | _, _, _, _, _, _ => bad
   | some s, ["mark", x1, y1, x2, y2] =>
     match parseInt? x1, parseInt? y1, parseInt? x2, parseInt? y2 with
